@@ -42,6 +42,7 @@ var reviewedExpr = []reviewedEntry{
 	rv("index", "rare/pkg/expressions/stdlib.EvalArgInt", "stages[idx]", 1, "guarded above by idx < len(stages); every caller passes a non-negative constant index (re-checked mechanically: rule C08/const-index-callers)", "idx < len(stages)"),
 	rv("panic", "rare/pkg/expressions/stdmath.opCodeOrder", "panic(\"op not found\")", 1, "op1 is always a key of ops (getNextOp) and every key of ops occurs in orderOfOps (checked by C19-b), so one row contains it and the loop returns"),
 	rv("slice", "rare/pkg/expressions/stdmath.prefixInOps", "s[:min(len(s), maxLen)]", 1, "min(len(s), 2) is within [0,len(s)]"),
+	rv("slice", "rare/pkg/expressions/stdmath.prefixInOps", "code[:i]", 1, "i starts at len(code) and only decreases while i >= 0 (the compiler proves this on 64-bit targets; listed for 32-bit builds)", "i >= 0"),
 	rv("loop", "rare/pkg/expressions/stdmath.(*tokenScanner).compileTokens", "for ; !s.done(); ", 1, "each iteration returns or pops one token through getNextOp(true) (opCodeOrder only yields -1, 0, 1); the token list is finite"),
 	rv("index", "rare/pkg/expressions/stdmath.(*tokenScanner).pop", "s.next[0]", 1, "callers: getNextExpr (after its own done() check) and getNextOp(true), which is only called inside the !s.done() loop after getNextOp(false) succeeded without consuming (re-checked: rule C08/scanner-guard)"),
 	rv("index", "rare/pkg/expressions/stdmath.(*tokenScanner).peek", "s.next[0]", 1, "only called from getNextOp, whose call sites are inside compileTokens' !s.done() loop with no pop in between (re-checked: rule C08/scanner-guard)"),
